@@ -1896,7 +1896,7 @@ class Session:
                 verdict = first
         return verdict, cfg, round(time.time() - t, 3), (out or "")[:200]
 
-    def check(self, name, decls, domain, goal, uses, profiles=PROFILES, what="", split=None):
+    def check(self, name, decls, domain, goal, uses, profiles=PROFILES, what="", split=None, public_replay=None):
         """Obligation: for all values of `decls` [(name, width)] satisfying `domain` [smt bool texts], `goal` holds.
         `uses` = {placeholder: (function key, {input name: smt text})}; `{placeholder[out]}` in domain/goal expands to the
         application of that function's output in the profile being checked.  Decided as sat(domain and not goal).
@@ -1978,10 +1978,32 @@ class Session:
                 self.nontrivial += 1
             else:
                 self.nontrivial += 1
-                self._counterexample(q, prof, decls, uses, model, what or name, rec)
+                self._counterexample(q, prof, decls, uses, model, what or name, rec, public_replay)
             self.report.append("E2 %-58s %-12s z3=%s %.2fs cvc5=%s %.2fs" % (q, rec["verdict"].upper(), v1, s1, v2, s2))
 
-    def _counterexample(self, q, prof, decls, uses, model, what, rec):
+    def _public_replay(self, spec):
+        """(test file, test name) in /verif/native: a scenario through the PUBLIC API whose failure confirms a counterexample of a
+        private function that cannot be called natively.  Returns (confirmed, text)."""
+        test_file, test_name = spec
+        env = dict(os.environ, CARGO_NET_OFFLINE="true", CARGO_TARGET_DIR=os.path.join(VERIF, "target", "native"))
+        outs = []
+        failed = False
+        for flag in ([], ["--release"]):
+            cmd = ["cargo", "test", "--offline"] + flag + ["--test", test_file, test_name]
+            try:
+                p = subprocess.run(cmd, cwd=os.path.join(VERIF, "native"), env=env, stdout=subprocess.PIPE, stderr=subprocess.STDOUT, text=True, timeout=900)
+            except (subprocess.TimeoutExpired, OSError) as e:
+                return False, "public replay could not run: %s" % e
+            if "test result: FAILED" in p.stdout:
+                failed = True
+                outs.append("%s: FAILED" % ("release" if flag else "dev"))
+            elif "test result: ok" in p.stdout and "1 passed" in p.stdout:
+                outs.append("%s: passed" % ("release" if flag else "dev"))
+            else:
+                return False, "public replay did not run the test (%s)" % p.stdout[-200:]
+        return failed, "native test %s::%s -> %s" % (test_file, test_name, ", ".join(outs))
+
+    def _counterexample(self, q, prof, decls, uses, model, what, rec, public_replay=None):
         """a sat answer is only a violation if the real, natively compiled function behaves as the model says"""
         vals = {n: model[sym(n)] for n, _ in decls}
         rec["model"] = {n: (("0x%x" % v) if not isinstance(v, bool) else v) for n, v in vals.items()}
@@ -2010,6 +2032,13 @@ class Session:
                 problems.append("%s: native replay failed: %s" % (key, e))
             replays.append(item)
         rec["replay"] = replays
+        if problems and public_replay and all("has no native entry" in pr for pr in problems):
+            confirmed, text = self._public_replay(public_replay)
+            replays.append({"public_api_replay": text})
+            if confirmed:
+                problems = []
+            else:
+                problems.append("public-API replay does not show the defect: " + text)
         if problems:
             rec["verdict"] = "inconclusive"
             self.inconclusive.append("E2 %s: solver counterexample %s NOT confirmed natively: %s" % (q, rec["model"], "; ".join(problems)))
